@@ -40,8 +40,7 @@ def handleC04 : Handler := fun st toks =>
           some (contourOut (andContour searchConstF Float.ofNat sample (fOfTok alpha) (fOfTok err)
             (fOfTok maxDist) dirs))
         else
-          some (contourOut (orContour searchConstF Float.ofNat sample (fOfTok alpha) (fOfTok err)
-            (fOfTok maxDist) 1.1 dirs))
+          some (contourOut (orContourF sample (fOfTok alpha) (fOfTok err) (fOfTok maxDist) dirs))
       | none => some "ERR parse"
     | none => some "ERR parse"
   | _ => none
